@@ -3,8 +3,11 @@
 package api
 
 import (
+	"massnet.org/mass-wallet/masswallet"
 	rt "massnet.org/mass-wallet/zzverifrt"
 )
+
+const c15MaxAmount = 206438400 * 100000000
 
 // c15Digit reports whether b is an ASCII digit.
 func c15Digit(b byte) bool { return b >= '0' && b <= '9' }
@@ -63,6 +66,114 @@ func c15Grammar(s string) (ok bool, ambiguous bool, want uint64) {
 // VerifC15ParseShort: every byte string of length n (n fixed per case by NondetLen).
 func VerifC15ParseShort() {
 	n := rt.NondetLen(0, 4)
+	s := string(rt.NondetBytes(n))
+	amt, err := StringToAmount(s)
+	ok, ambiguous, want := c15Grammar(s)
+	if !ambiguous {
+		rt.Assert((err == nil) == ok, "accept-iff-numeral")
+	}
+	if err == nil && ok {
+		rt.Assert(amt.UintValue() == want, "value-times-1e8")
+	}
+	rt.Reach("end")
+}
+
+// c15Canonical: I or I.F, I without leading zeros (or exactly "0"), F non-empty without trailing zero.
+func c15Canonical(s string) bool {
+	if len(s) == 0 {
+		return false
+	}
+	dot := -1
+	for i := 0; i < len(s); i++ {
+		if s[i] == '.' {
+			dot = i
+		}
+	}
+	intPart := s
+	if dot >= 0 {
+		intPart = s[:dot]
+		if dot == len(s)-1 || s[len(s)-1] == '0' || len(s)-1-dot > 8 {
+			return false
+		}
+	}
+	if len(intPart) == 0 || (len(intPart) > 1 && intPart[0] == '0') {
+		return false
+	}
+	return true
+}
+
+// VerifC15Format: every int64 m. Formatting succeeds iff 0 <= m <= max; the text is the canonical numeral of
+// m/10^8; parsing it back returns m.
+func VerifC15Format() {
+	m := rt.NondetI64()
+	s, err := AmountToString(m)
+	inRange := m >= 0 && m <= c15MaxAmount
+	rt.Assert((err == nil) == inRange, "format-succeeds-iff-in-range")
+	if err == nil {
+		ok, ambiguous, want := c15Grammar(s)
+		rt.Assert(ok && !ambiguous, "format-is-numeral")
+		rt.Assert(want == uint64(m), "format-value")
+		rt.Assert(c15Canonical(s), "format-canonical")
+		back, err2 := StringToAmount(s)
+		rt.Assert(err2 == nil, "roundtrip-parses")
+		if err2 == nil {
+			rt.Assert(back.UintValue() == uint64(m), "roundtrip-value")
+		}
+	}
+	rt.Reach("end")
+}
+
+// VerifC15FormatAgree: the wallet-side copy of AmountToString returns the same text/error as the api copy.
+func VerifC15FormatAgree() {
+	m := rt.NondetI64()
+	s1, err1 := AmountToString(m)
+	s2, err2 := masswallet.AmountToString(m)
+	rt.Assert((err1 == nil) == (err2 == nil), "copies-agree-on-error")
+	if err1 == nil && err2 == nil {
+		rt.Assert(s1 == s2, "copies-agree-on-text")
+	}
+	rt.Reach("end")
+}
+
+// VerifC15ParseDigits: numerals I.F with ni integral and nf fractional digits (each digit arbitrary),
+// optionally without the dot when nf == 0.
+func VerifC15ParseDigits() {
+	c15ParseDigits(rt.NondetLen(1, 10), rt.NondetLen(0, 9))
+}
+
+// VerifC15ParseDigitsEdge: quick-tier slice of VerifC15ParseDigits around the maximum (9-10 integral digits)
+// and the precision limit (8-9 fractional digits).
+func VerifC15ParseDigitsEdge() {
+	c15ParseDigits(rt.NondetLen(9, 10), rt.NondetLen(8, 9))
+}
+
+func c15ParseDigits(ni, nf int) {
+	withDot := nf > 0 || rt.NondetBool()
+	buf := make([]byte, 0, 24)
+	for i := 0; i < ni; i++ {
+		buf = append(buf, byte('0'+rt.NondetRange(0, 9)))
+	}
+	if withDot {
+		buf = append(buf, '.')
+	}
+	for i := 0; i < nf; i++ {
+		buf = append(buf, byte('0'+rt.NondetRange(0, 9)))
+	}
+	s := string(buf)
+	amt, err := StringToAmount(s)
+	ok, ambiguous, want := c15Grammar(s)
+	if !ambiguous {
+		rt.Assert((err == nil) == ok, "accept-iff-numeral")
+	}
+	if err == nil && ok {
+		rt.Assert(amt.UintValue() == want, "value-times-1e8")
+	}
+	rt.Reach("end")
+}
+
+// VerifC15ParseLonger: thorough-tier variant of VerifC15ParseShort (all byte strings of length 5 and 6).
+func VerifC15ParseLonger() {
+	n := rt.NondetLen(5, 6)
 	s := string(rt.NondetBytes(n))
 	amt, err := StringToAmount(s)
 	ok, ambiguous, want := c15Grammar(s)
